@@ -1,5 +1,165 @@
-From Coq Require Import String List ZArith Bool.
+(* C19 — every configuration the CLI emits is runnable and targets the right density.
+
+   What is proved here is the correctness of the two CHECKERS that the harness then runs (by
+   vm_compute) on every configuration emitted by the real torchtree-cli over the option space:
+
+     wf_config registered j      ids unique at any depth, every class registered and known to the
+                                 schema, every reference resolves to a definition completed EARLIER
+                                 in the loader's processing order, no identified object in a
+                                 position the loader ignores;
+     check_jacobians j           the Jacobian terms listed in the density handed to the sampler /
+                                 optimiser are: every transformed parameter (or ratio-parameterised
+                                 tree) that lies between a moved parameter and a prior's random
+                                 variable, each once; possibly (at most once) transforms of
+                                 parameters on which no prior at all is placed; nothing else.
+
+   The model (which keys each class processes and in which order; which key holds the random
+   variable of each density class) is in model/M_config.v; it is tied to the implementation on
+   every run by comparing [config_events] with the registry operations of the real loader and
+   target() - joint() with independently computed log-determinants.  That the emitted objects
+   construct, and that density and gradient are finite, is observed per configuration (an
+   execution fact, not a theorem).  Proofs: proof/P_config.v. *)
+From Coq Require Import String List ZArith Bool Permutation Reals.
 Import ListNotations.
 From TT Require Import M_config G_cliclasses P_config.
-Theorem C19_placeholder : True. Proof. exact placeholder. Qed.
-Print Assumptions C19_placeholder.
+Open Scope string_scope.
+
+(* The recursive loader (process_object / process_objects with its registry of completed ids) is
+   the left-to-right run of the flattened list of registry operations — the list the harness
+   compares with the real loader's. *)
+Theorem C19_loader_is_run_of_events : forall s reg, load s reg = run (events s) reg.
+Proof. exact load_events. Qed.
+Print Assumptions C19_loader_is_run_of_events.
+
+(* wf_config_sound: a configuration accepted by the checker is accepted by the abstract loader:
+   no dangling reference, no duplicate id, no unknown class, whatever the nesting. *)
+Theorem C19_wf_config_sound : forall registered j,
+  wf_config registered j = true -> exists reg, load (sk_of registered j) [] = Ok reg.
+Proof. exact wf_config_sound_l. Qed.
+Print Assumptions C19_wf_config_sound.
+
+(* ... and then all identified objects of the configuration, loggers and samplers included, have
+   been constructed and registered, every id exactly once. *)
+Theorem C19_wf_config_constructs_all : forall registered j,
+  wf_config registered j = true ->
+  exists reg, load (sk_of registered j) [] = Ok reg /\
+              NoDup (all_ids j) /\ forall i, In i (all_ids j) -> In i reg.
+Proof. exact wf_config_constructs_l. Qed.
+Print Assumptions C19_wf_config_constructs_all.
+
+(* The loader does fail on what the checker looks for. *)
+Theorem C19_loader_rejects_dangling : forall r reg, ~ In r reg -> load (SRef r) reg = Err (Dangling r).
+Proof. exact load_dangling. Qed.
+Print Assumptions C19_loader_rejects_dangling.
+
+Theorem C19_loader_rejects_duplicate : forall id body reg,
+  In id reg -> load (SDef id body) reg = Err (Duplicate id).
+Proof. exact load_duplicate. Qed.
+Print Assumptions C19_loader_rejects_duplicate.
+
+(* jacobian_exactly_once: logdet t = log|det J_t| at the current point (abstract), joint = value of
+   the constrained joint density.  If the checker accepts, the density handed to the sampler /
+   optimiser (joint + the listed terms) equals joint + the log-determinant of EVERY transform that
+   needs one, each counted exactly once, + those of a duplicate-free set of transforms that all
+   belong to [optional_jacobian j] (parameters without any prior: scale left to convention);
+   no listed term occurs twice; every listed term is needed or optional. *)
+Theorem C19_jacobian_exactly_once : forall (logdet : string -> R) (joint : R) j ts,
+  targets j <> [] ->
+  jacobian_terms j = Some ts ->
+  check_jacobians j = true ->
+  let needs := needs_jacobian j in
+  let extra := extras ts needs in
+  (handed logdet joint ts = joint + rsum (map logdet needs) + rsum (map logdet extra))%R
+  /\ (forall t, In t needs -> count_occ string_dec ts t = 1%nat)
+  /\ (forall t, (count_occ string_dec ts t <= 1)%nat)
+  /\ (forall t, In t ts -> In t needs \/ In t (optional_jacobian j))
+  /\ NoDup needs /\ NoDup extra /\ incl extra (optional_jacobian j)
+  /\ (forall t, In t extra -> ~ In t needs).
+Proof. exact jacobian_exactly_once_l. Qed.
+Print Assumptions C19_jacobian_exactly_once.
+
+(* Full strength, as the property states it: when every moved transformed parameter carries a prior
+   the handed density is exactly joint + sum over the constraining transforms with a prior. *)
+Theorem C19_jacobian_exact : forall (logdet : string -> R) (joint : R) j ts,
+  targets j <> [] ->
+  jacobian_terms j = Some ts ->
+  check_jacobians j = true ->
+  optional_jacobian j = [] ->
+  (handed logdet joint ts = joint + rsum (map logdet (needs_jacobian j)))%R /\
+  Permutation ts (needs_jacobian j).
+Proof. exact jacobian_exact_l. Qed.
+Print Assumptions C19_jacobian_exact.
+
+(* The checker rejects a missing term, a repeated term, a term that is neither needed nor optional. *)
+Theorem C19_checker_rejects_missing : forall terms needs optional t,
+  In t needs -> ~ In t terms -> check_terms terms needs optional = false.
+Proof. exact check_terms_missing. Qed.
+Print Assumptions C19_checker_rejects_missing.
+
+Theorem C19_checker_rejects_repeated : forall terms needs optional,
+  ~ NoDup terms -> check_terms terms needs optional = false.
+Proof. exact check_terms_repeated. Qed.
+Print Assumptions C19_checker_rejects_repeated.
+
+Theorem C19_checker_rejects_foreign : forall terms needs optional t,
+  In t terms -> ~ In t needs -> ~ In t optional -> check_terms terms needs optional = false.
+Proof. exact check_terms_foreign. Qed.
+Print Assumptions C19_checker_rejects_foreign.
+
+(* ---------------------------------------------------------------- non-vacuity *)
+
+Definition ex_obj (id ty : string) (rest : list (string * json)) : json :=
+  JObj (("id", JStr id) :: ("type", JStr ty) :: rest).
+
+(* a positive rate (Exp of an unconstrained parameter) with an exponential prior, an unconstrained
+   location with a normal prior, sampled by MCMC on the unconstrained parameters *)
+Definition ex_config (listed : list json) (first : json) : json :=
+  JArr [
+    first;
+    ex_obj "joint" "JointDistributionModel" [("distributions", JArr [
+      ex_obj "rate.prior" "Distribution" [
+        ("distribution", JStr "torch.distributions.Exponential");
+        ("x", ex_obj "rate" "TransformedParameter" [
+           ("transform", JStr "torch.distributions.ExpTransform");
+           ("x", ex_obj "rate.unres" "Parameter" [("tensor", JArr [JNum None])])]);
+        ("parameters", JObj [("rate", JNum (Some 1%Z))])];
+      ex_obj "loc.prior" "Distribution" [
+        ("distribution", JStr "torch.distributions.Normal");
+        ("x", JStr "loc");
+        ("parameters", JObj [("loc", JNum (Some 0%Z)); ("scale", JNum (Some 1%Z))])]])];
+    ex_obj "joint.jacobian" "JointDistributionModel" [("distributions", JArr (JStr "joint" :: listed))];
+    ex_obj "mcmc" "MCMC" [
+      ("joint", JStr "joint.jacobian"); ("iterations", JNum (Some 10%Z));
+      ("operators", JArr [
+         ex_obj "op1" "SlidingWindowOperator" [("parameters", JStr "rate.unres")];
+         ex_obj "op2" "SlidingWindowOperator" [("parameters", JStr "loc")]]);
+      ("loggers", JArr [ex_obj "logger" "Logger" [("parameters", JArr [JStr "joint"; JStr "rate"])]])]
+  ].
+
+Definition ex_loc : json := ex_obj "loc" "Parameter" [("tensor", JArr [JNum (Some 0%Z)])].
+
+Example C19_example_good :
+  wf_config registered_classes (ex_config [JStr "rate"] ex_loc) = true /\
+  check_jacobians (ex_config [JStr "rate"] ex_loc) = true /\
+  needs_jacobian (ex_config [JStr "rate"] ex_loc) = ["rate"] /\
+  optional_jacobian (ex_config [JStr "rate"] ex_loc) = [] /\
+  moved (ex_config [JStr "rate"] ex_loc) = ["rate.unres"; "loc"] /\
+  List.length (config_events registered_classes (ex_config [JStr "rate"] ex_loc)) = 30%nat.
+Proof. vm_compute. repeat split; reflexivity. Qed.
+
+(* dropping the Jacobian term, listing it twice, listing something that has no business there *)
+Example C19_example_bad_jacobians :
+  check_jacobians (ex_config [] ex_loc) = false /\
+  check_jacobians (ex_config [JStr "rate"; JStr "rate"] ex_loc) = false /\
+  check_jacobians (ex_config [JStr "rate"; JStr "loc"] ex_loc) = false.
+Proof. vm_compute. repeat split; reflexivity. Qed.
+
+(* `loc' referenced by its prior but defined nowhere; defined twice; the logger placed before joint *)
+Example C19_example_bad_references :
+  wf_config registered_classes (ex_config [JStr "rate"] JNull) = false /\
+  load (sk_of registered_classes (ex_config [JStr "rate"] JNull)) [] = Err (Dangling "loc") /\
+  wf_config registered_classes (ex_config [JStr "rate"] (JArr [ex_loc; ex_loc])) = false /\
+  load (sk_of registered_classes (ex_config [JStr "rate"] (JArr [ex_loc; ex_loc]))) [] = Err (Duplicate "loc") /\
+  wf_config registered_classes
+    (ex_config [JStr "rate"] (JArr [ex_loc; ex_obj "early" "Logger" [("parameters", JArr [JStr "joint"])]])) = false.
+Proof. vm_compute. repeat split; reflexivity. Qed.
